@@ -54,6 +54,10 @@ package chainntnfs
 //@ func (n *TxNotifier) dispatchConfDetails
 //@   props C14
 //@   bounds-safe
+//@   // the details handed in are shared by every client of the request (they are the request's cached details): they are read, never written -
+//@   // a client that does not want the block gets a copy made by the caller
+//@   ensures details != nil ==> details.Block == old(details.Block) && details.BlockHash == old(details.BlockHash) &&
+//@           details.BlockHeight == old(details.BlockHeight) && details.TxIndex == old(details.TxIndex) && details.Tx == old(details.Tx)
 //@   requires details != nil ==> 1 <= ntfn.NumConfirmations && details.BlockHeight + ntfn.NumConfirmations <= 4294967295 &&
 //@            details.BlockHeight + n.reorgSafetyLimit <= 4294967295
 //@   site store ConfNtfn.dispatched: assert details != nil && value && !old(ntfn.dispatched) &&
@@ -293,3 +297,16 @@ package chainntnfs
 //@        arg(3) == retn(GetCommonBlockAncestorHeight, 0) && retn(GetCommonBlockAncestorHeight, 1) == nil
 //@   site call getMissedBlocks: assert arg(0) == chainConn && arg(2) == newHeight &&
 //@        arg(1) == swrap(ite(backendStoresReorgs, retn(GetCommonBlockAncestorHeight, 0), entry(currBestBlock).Height) + 1, 32)
+//@
+//@ // ---- the matcher of the historical spend rescan: 'no match' is answered only after EVERY input was looked at (an input whose script type
+//@ // ---- cannot be re-derived is skipped, it does not end the scan), a match names the index of the matching input
+//@ func (r SpendRequest) MatchesTx
+//@   props C14
+//@   loop * havoc
+//@   site return * nth 0 as outpoint-match: assert result0 && result2 == nil && result1 == wrap(rangeindex + 1, 32) && 0 <= rangeindex + 1 && rangeindex + 1 < len(tx.TxIn)
+//@   site return * nth 1 as outpoint-scanned-all: assert !result0 && result2 == nil && rangeindex + 1 >= len(tx.TxIn)
+//@   site return * nth 2 as script-error: assert !result0 && result2 != nil && result2 != txscript.ErrUnsupportedScriptType
+//@   site return * nth 3 as script-match: assert result0 && result2 == nil && result1 == wrap(rangeindex + 1, 32) && ret(Equal)
+//@   site return * nth 4 as script-scanned-all: assert !result0 && result2 == nil && rangeindex + 1 >= len(tx.TxIn)
+//@   site call ComputePkScript: assert 0 <= rangeindex + 1 && rangeindex + 1 < len(tx.TxIn) && txIn == tx.TxIn[rangeindex + 1] &&
+//@        arg(0) == txIn.SignatureScript && arg(1) == txIn.Witness
